@@ -16,6 +16,24 @@ def read_log(path):
         out[key] = p[2:]
     return out
 
+def hex_match(a, m):
+    """implementation hex dump `a` against model dump `m` that may contain ?? (undefined byte)"""
+    if '?' not in m:
+        return a == m
+    if len(a) != len(m):
+        return False
+    return all(y == '?' or x == y for x, y in zip(a, m))
+
+
+def file_match(a, m):
+    """file images: implementation bytes zero-extended (reading past EOF gives zeros), model
+    bytes ??-extended (never written = undefined)"""
+    if a == '-': a = ''
+    if m == '-': m = ''
+    n = max(len(a), len(m))
+    return hex_match(a.ljust(n, '0'), m.ljust(n, '?'))
+
+
 def hex_zero_ext_equal(a, b):
     """two hex dumps equal after zero extension (file images: size differences past the
     last written byte are not observable through the library)"""
@@ -49,13 +67,13 @@ def compare(impl, model, nprocs):
         why = ''
         if a[0] != m[0]:
             ok = False; why = 'op name'
-        elif a[1] != m[1]:
+        elif a[1] != m[1] and m[1] != '-7776':
             ok = False; why = 'return code'
         else:
             ae, me = a[2:], m[2:]
             if a[0] == 'snapshot' and len(ae) >= 2 and len(me) >= 2:
                 # size token: compare content zero-extended instead
-                if me[1] != '?' and ae[1] != 'big' and not hex_zero_ext_equal(ae[1], me[1]):
+                if me[1] != '?' and ae[1] != 'big' and not file_match(ae[1], me[1]):
                     ok = False; why = 'file bytes'
             elif len(ae) != len(me) and '?' not in me:
                 ok = False; why = 'token count'
@@ -63,7 +81,7 @@ def compare(impl, model, nprocs):
                 for x, y in zip(ae, me):
                     if y == '?':
                         continue
-                    if x != y:
+                    if x != y and not ('?' in y and hex_match(x, y)):
                         ok = False; why = 'token %r vs %r' % (x[:60], y[:60]); break
         if not ok:
             mism.append({'line': key[0], 'rank': key[1], 'impl': a, 'model': m, 'why': why})
